@@ -404,7 +404,7 @@ def selftest(ctx):
     from vf.oracles.extops import check_ext
 
     fired: set[str] = set()
-    for i in range(60):
+    for i in range(600):
         if set(RULES) - {"V-DOM"} <= fired:
             break
         r = ctx.rng("selftest", i)
